@@ -95,9 +95,13 @@ CLAIMED = {
                  'collaborators may suspend and raise). The driver evaluates the hypotheses (SwP, SolutionSw of the eager values, '
                  'agreement with Sem) on every generated switch-only program. General, local tier (all programs): _run_switch selects '
                  'exactly a declared case whose label is the stored result of the decision node, an unmatched label wakes run() and '
-                 'fails with SwitchNoCase, case edges are invisible in every reduced DAG (C09_*). Partial: laziness (non-selected cases '
-                 'never run) and termination under all schedules are tied and monitored (trace-only routing monitor everywhere, Sem '
-                 'inside the fragment), not theorems.', '§6 C09'),
+                 'fails with SwitchNoCase, case edges are invisible in every reduced DAG (C09_*). Laziness is part of the invariant: a node '
+                 'that has been started is needed — the output, a source of a needed node, the decision node or the selected case of a '
+                 'needed switch (C09_switch_only_needed_nodes_run, C09_switch_unneeded_node_never_runs; hypothesis: launch orders are '
+                 'topological orders of their DAGs, checked on every order the real code returns; Proofs/GraphReach.lean proves the '
+                 'path property of reduced DAGs it rests on). Partial: termination under all schedules is tied and monitored, not a '
+                 'theorem; shapes with one-of / recurrent subgraphs rest on the tie (trace-only routing monitor everywhere, Sem inside '
+                 'the fragment).', '§6 C09'),
     'C10': sched('Proof (general, local to _run_oneof): candidates are opened and started strictly in declared order, the next only '
                  'after a recorded failure of the current one, none after a success; unopened candidates are invisible; exhaustion '
                  'yields OneOfDoesNotHaveResultError, contained when nested (C10_*). Partial: first-success semantics under all '
